@@ -16,8 +16,8 @@ ALL_ALG_TOKENS = set(ALGS["o"]) | set(ALGS["b"]) | set(ZERO.values())
 FULLDIV_SIZES = (8, 40, 272, 2080)
 
 TOKENS_QUICK = ["ico", "cube3D", "randomS", "cube4D", "randomQ", "fulldiv", "zero3D", "zero4D", "zero", "0", "1", "2",
-                "17", "40", "007", "-3", "none", "None", "junk", "", "zerox", "1.5", "ICO"]
-TOKENS_THOROUGH = TOKENS_QUICK + ["8", "12", "٣", "²", "Zero", " 5", "1e2"]
+                "17", "40", "007", "-3", "none", "None", "junk", "", "zerox", "1.5", "ICO", "d", "x"]
+TOKENS_THOROUGH = TOKENS_QUICK + ["8", "12", "٣", "²", "Zero", " 5", "1e2", "D", "dd", "q"]
 
 
 def has_dim_tag(name):
